@@ -268,9 +268,17 @@ func doReplay(path, out string) {
 	}
 	o := core.RunOne(sc, r.Seed, core.RunOpts{Thorough: r.Thorough, WantDesc: true, KeepLog: 200, Replay: r.Tape})
 	if strings.HasPrefix(r.Oracle, "C13.") {
-		// a race report is reproduced if the same pair of library frames is reported again
+		// A race report is reproduced if the same pair of library frames is
+		// reported again. The schedule is exactly the recorded one every time;
+		// what can differ between processes is which of the earlier accesses the
+		// detector still remembers (its shadow cells keep a few accesses per
+		// word and evict pseudo-randomly), so the same tape is executed again,
+		// up to 40 times, until the pair is reported.
 		o.Violation = nil
-		if raceScan != nil {
+		for attempt := 0; attempt < 40 && o.Violation == nil && raceScan != nil; attempt++ {
+			if attempt > 0 {
+				o = core.RunOne(sc, r.Seed, core.RunOpts{Thorough: r.Thorough, WantDesc: true, KeepLog: 200, Replay: r.Tape})
+			}
 			for _, rep := range raceScan.scan() {
 				if "C13.race."+rep.Sig == r.Oracle {
 					o.Violation = &simrt.Violation{Oracle: r.Oracle, Msg: rep.Text, Step: r.Step}
